@@ -1,6 +1,5 @@
 """C15 — binary_sequence is a closed, immutable-by-operation algebra over {0,1}; electrical_signal >, < comparisons."""
 import itertools
-import os
 import warnings
 from fractions import Fraction
 
@@ -268,7 +267,7 @@ TEXTS = ["", " ", ",", ";", "0;1", "01;10", "0 1;1", "0\t1", "0\n1", "01\n", "\t
 
 
 # integer literals outside the C long range: numpy raises OverflowError inside str2array; the constructor turns it into
-# ValueError (fix e0d1539)
+# ValueError (fix e0d1539), and so do + and reflected + (fix 79ce078)
 OVERFLOW_TEXTS = ["9223372036854775808", "-9223372036854775809", "99999999999999999999", "0 1 99999999999999999999",
                   "1,-99999999999999999999", "9223372036854775808;1", " 18446744073709551616 "]
 
@@ -454,15 +453,17 @@ def gen_cases(rng, tier):
                                                              {"form": rng.choice(["tuple", "list", "ndarray"]), "vals": [[t0, 0], [1, 0]], "noise": None}])})
     for bad in [{"form": "none"}, {"form": "text", "text": "a"}, {"form": "text", "text": ""}, {"form": "dict"}]:
         cases.append({"kind": "cmp", "op": "gt", "sig": [[8, 0], [16, 0]], "noise": None, "scale": SCALE, "thr": bad})
-    if os.environ.get("VERIF_SUSPECT"):
-        cases += [dict(c) for c in SUSPECT]
+    # out-of-range integer literals as operands of + / reflected + (fix 79ce078), the former suspect cases
+    cases += [dict(c) for c in OVERFLOW_OPERANDS]
+    for t in OVERFLOW_TEXTS:
+        for op in ("add", "radd"):
+            cases.append({"kind": "prog", "init": _rand_bits(rng, rng.randrange(0, 6)),
+                          "steps": [{"op": op, "operand": {"form": "text", "text": t}, "obits": None, "expect": "err", "keep": False}]})
     rng.shuffle(cases)
     return cases
 
 
-# still open, reported, not generated by default: `__add__` / `__radd__` call str2array without the constructor's
-# `except OverflowError`, so the same literal as an OPERAND of + still raises OverflowError (model: `add_overflow_escapes`).
-SUSPECT = [
+OVERFLOW_OPERANDS = [
     {"kind": "prog", "init": "01", "steps": [{"op": "add", "operand": {"form": "text", "text": "-9223372036854775809"}, "obits": None,
                                               "expect": "err", "keep": False}]},
     {"kind": "prog", "init": "01", "steps": [{"op": "radd", "operand": {"form": "text", "text": "99999999999999999999"}, "obits": None,
